@@ -116,30 +116,66 @@ def top_in(body: list[ast.stmt], node: ast.AST) -> Optional[ast.stmt]:
 
 
 def check_key_function(ctx: Ctx) -> None:
+    """Individual.key_function(problem) is interpreted: the closure it returns, applied to an individual that carries a
+    fitness for *another* problem (stored first) and for this problem, must return this problem's maximising aggregate; for
+    an individual without a fitness for this problem, the aggregate of problem.evaluate(phenotype)."""
+    from ..modelinterp import Budget, Effect, Interp, LocalFn, Obj, Sym, UNKNOWN, _NONE
     prog = ctx.prog
-    ind = prog.get_class(INDIVIDUAL)
-    kf = ind.methods.get("key_function")
-    fit = prog.classes.get("geneticengine.problems.Fitness")
-    if kf is None or fit is None:
-        raise AnalysisError("C17: Individual.key_function / problems.Fitness missing")
-    first_field = next((st.target.id for st in fit.node.body if isinstance(st, ast.AnnAssign)), None)
-    inner = [f for f in prog.functions.values() if f.parent is kf]
-    ok = False
-    why = "key_function does not return the first field of the individual's Fitness for the problem"
-    for f in inner:
-        for r in walk_local(f.node):
-            if isinstance(r, ast.Return) and r.value is not None:
-                v = r.value
-                if isinstance(v, ast.Subscript) and isinstance(v.slice, ast.Constant) and v.slice.value == 0 \
-                        and isinstance(v.value, ast.Call) and call_name(v.value) == "get_fitness":
-                    ok = first_field == "maximizing_aggregate"
-                    if not ok:
-                        why = f"Fitness[0] is '{first_field}', not the maximising aggregate"
-                elif isinstance(v, ast.Attribute) and v.attr == "maximizing_aggregate":
-                    ok = True
-                elif isinstance(v, ast.UnaryOp):
-                    why = "key is negated: max() picks the worst participant"
-    ctx.ob("C17.R1", kf, kf.node, "Individual.key_function = maximising aggregate of the individual", ok, "" if ok else why)
+    ind_cls = prog.get_class(INDIVIDUAL)
+    kf = prog.lookup_method(ind_cls, "key_function")
+    if kf is None:
+        raise AnalysisError("C17: Individual.key_function missing")
+
+    def fit(agg, comp):
+        return Obj("Fitness", {"maximizing_aggregate": agg, "fitness_components": [comp]})
+
+    bad = und = None
+    for label, store, want in (("a fitness for another problem stored first", {"other": fit(9.0, -9.0), "problem": fit(1.0, -1.0)}, 1.0),
+                               ("only this problem's fitness", {"problem": fit(2.0, 7.0)}, 2.0),
+                               ("no fitness for this problem yet", {"other": fit(9.0, -9.0)}, 5.0)):
+        def call_model(it, call, env, args, kwargs):
+            nm = call_name(call)
+            recv = it.ev(call.func.value, env, 9) if isinstance(call.func, ast.Attribute) else None
+            if nm == "evaluate" and isinstance(recv, Sym) and recv.tag == "problem":
+                return fit(5.0, -5.0)
+            if nm == "genotype_to_phenotype":
+                return Sym("phen")
+            if nm == "WeakKeyDictionary":
+                return {}
+            return None
+
+        it = Interp(prog, ind_cls, lambda *_: None, call_model, max_depth=6, max_traces=16)
+        it.strict_index = True
+        ind = Obj("Individual", {"fitness_store": dict(store), "phenotype": Sym("phen"), "genotype": Sym("geno"),
+                                 "representation": Sym("representation")}, ind_cls.fullname)
+        params = [p_ for p_ in kf.params if p_ != "self"]
+        try:
+            runs = it.run(kf, {params[0]: Sym("problem")})
+        except Budget:
+            und = "too many interpretations"
+            continue
+        for trace, rv, notes in runs:
+            if not isinstance(rv, LocalFn):
+                und = und or f"key_function does not return a local function ({rv!r})"
+                continue
+            it2 = Interp(prog, ind_cls, lambda *_: None, call_model, max_depth=6, max_traces=16)
+            it2.strict_index = True
+            it2.fn_stack = [kf]
+            it2.trace, it2.choices, it2._pos, it2.undecided = [], [], 0, []
+            try:
+                val = it2.call_local(rv, [ind], {}, 1, {})
+            except Exception as ex:   # _Return escaping a raise inside the model
+                val = UNKNOWN
+            raised = [e.name for e in it2.trace if e.kind == "raise"]
+            if raised:
+                bad = bad or f"with {label} the key function fails ({raised[0]})"
+            elif val is UNKNOWN or not isinstance(val, (int, float)):
+                und = und or f"the key is not followed ({val!r})"
+            elif val != want:
+                bad = bad or (f"with {label} the key of the individual is {val}, expected {want} (the maximising aggregate of its fitness "
+                              f"for the problem the selection is run on): max() ranks participants by something else")
+    ctx.ob("C17.R1", kf, kf.node, "Individual.key_function = maximising aggregate of the individual for the given problem", False if bad else (None if und else True),
+           bad or und or "")
 
 
 def tournament(ctx: Ctx, cls, fn: FunctionInfo) -> None:
